@@ -75,6 +75,23 @@ def run(tier, rng, C):
         a, b = C.case_id('i', i), C.case_id('r', i)
         cases.append({'id': a, 'line': V.stack_line(a, 'value', inline), 'show': V.stack_show(inline), 'nontrivial': False})
         cases.append({'id': b, 'line': V.stack_line(b, 'value', refd), 'show': V.stack_show(refd), 'nontrivial': True, 'twin': a})
+    # many reference layers, each reached through a chain of aliases: what one layer's resolution costs
+    # (depth of its chain) does not count against the next layer -- > 64 hops in total, <= 10 per layer
+    for i in range(40 if tier == 'quick' else 600):
+        nl, hops = rng.randint(8, 14), rng.randint(6, 10)
+        kind = rng.choice('lm')
+        vals = [('l', [I(j)]) if kind == 'l' else ('m', [(S(rng.choice('xyz')), I(j))]) for j in range(nl)]
+        helpers = []
+        for j, v in enumerate(vals):
+            helpers.append((S('h%d_0' % j), v))
+            helpers += [(S('h%d_%d' % (j, h)), S('${h%d_%d}' % (j, h - 1))) for h in range(1, hops)]
+        rng.shuffle(helpers)
+        inline = [('m', [(S('t'), v)]) for v in vals]
+        refd = [('m', [(S('t'), S('${h%d_%d}' % (j, hops - 1)))]) for j in range(nl)]
+        refd[0] = ('m', refd[0][1] + helpers)
+        a, b = C.case_id('di', i), C.case_id('dr', i)
+        cases.append({'id': a, 'line': V.stack_line(a, 'value', inline), 'show': V.stack_show(inline), 'nontrivial': False})
+        cases.append({'id': b, 'line': V.stack_line(b, 'value', refd), 'show': V.stack_show(refd)[:600], 'nontrivial': True, 'twin': a})
 
     def get_t(o):
         v = C.canon_value(o)
@@ -99,6 +116,6 @@ def run(tier, rng, C):
         return fails
     rule = ('%d metamorphic twin pairs: a stack of 2-5 layers of key t (mappings with ~/= members, lists, scalars, null; top level '
             'or nested one level) and the same stack with a random subset of layers replaced by references to helper keys '
-            'holding the layer (30%% through a second reference); oracle: both fail or both render t (and a member lookup ${t:x} into it, in 40%% of the pairs) identically; plus '
+            'holding the layer (30%% through a second reference); oracle: both fail or both render t (and a member lookup ${t:x} into it, in 40%% of the pairs) identically; plus twins with 8-14 reference layers each behind 6-10 aliases (more than 64 hops in total); plus '
             'model/impl comparison on every case; non-trivial = the twin with reference layers' % n)
     return C.standard_run(cases, rule, key_fn=lambda c, m, i, r: 'model-impl-differ', extra_oracle=oracle)
